@@ -503,8 +503,8 @@ def sample_of(case):
 
 def describe():
   return {
-    "rule": ("one evaluation = one seeded caption script (1-12 captions of pop-on: RCL [ENM] (PAC [TOx] text/mid-row/special/extended/BS){1-4 rows} "
-             "[EDM] EOC; roll-up: RU2-4 (CR [PAC] text)*; paint-on: RDC (PAC text)*; clean mode switches) sent twice through a simulated line-21 "
+    "rule": ("one evaluation = one seeded caption script (1-12 captions of pop-on: RCL [ENM] (PAC [TOx] text/mid-row{1,2}/special/extended/BS/TOx){1-4 rows} "
+             "[EDM] EOC; roll-up: RU2-4 (CR [PAC] text)*; paint-on: RDC (PAC text)*; mode switches clean, or between pop-on and paint-on with a caption on screen) sent twice through a simulated line-21 "
              "channel with two seeded configurations (codes once/twice, null padding, channel-2 bursts, parity cleared, line length 6-1000 words, "
              "NDF or DF labels starting at seeded frames incl. minute / ten-minute / hour boundaries, idle gaps) and read by scc_reader.to_model with a "
              "seeded text_align; compared with the reference 608 decoder at the middle of every quiescent interval and on every emitted begin/end. "
@@ -517,9 +517,10 @@ def describe():
     "simulated_time_fn": lambda agg: "%d frames (%.1f h of caption time at 30 fps) in %d transmitted words" % (
       agg.counts.get("sim.frames_simulated", 0), agg.counts.get("sim.frames_simulated", 0) / 108000.0, agg.counts.get("sim.words_transmitted", 0)),
     "assumptions": [
-      "scripts follow the three protocols on channel 1 with clean mode switches (EDM+ENM and idle time before changing style); text of one row is sent contiguously",
+      "scripts follow the three protocols on channel 1; style changes to and from roll-up are clean (EDM+ENM and idle time first); text of one row is sent contiguously",
       "display is compared at quiescent frames only (>= 3 frames away from any display change of the reference); inside transmission windows only the change times are judged",
       "row ends are stripped and runs of blanks collapsed; in roll-up the base row is 15 on both sides (the reader documents that it forces it, the reference ignores the row of PACs in roll-up mode)",
-      "the italics mid-row code is only generated while the pen is white, and characters whose Unicode identity is debatable are not generated (C17 territory)",
+      "characters whose Unicode identity is debatable are not generated (C17 territory); background attribute codes, flash, DER and the text-mode codes are outside the statement and not generated",
+      "rows that are re-addressed while they hold content are compared too, but their mismatches are classified separately (open known findings)",
     ],
   }
